@@ -75,12 +75,40 @@ def sig_ok(fam, k, kwnames):
 
 
 # ---- parameter specs ---------------------------------------------------------------------------------
+def _numobj(x, fl):
+    """a number of the given Python / numpy type; its value is float(<the object>)"""
+    from fractions import Fraction as Fr
+    from decimal import Decimal
+    if fl in ("int", "float", "npf", "npi", "bool"):
+        return {"int": int, "float": float, "npf": np.float64, "npi": np.int64, "bool": bool}[fl](x)
+    if fl == "f32":
+        return np.float32(x)
+    if fl == "f16":
+        return np.float16(x)
+    if fl == "ld":
+        return np.longdouble(x)
+    if fl == "frac":
+        return Fr(int(round(x * 3)), 3)
+    if fl == "dec":
+        return Decimal(repr(float(x)))
+    if fl == "big":
+        return int(x)                               # Python int beyond 2**53
+    if fl == "u8":
+        return np.uint8(x)
+    raise ValueError(fl)
+
+
+def numval(x, fl):
+    return int(bool(x)) if fl == "bool" else float(_numobj(x, fl))
+
+
 def build(s):
     from pyuncertainnumber.pba.intervals.number import Interval
     k = s[0]
     if k == "N":
-        x, fl = s[1], s[2]
-        return {"int": int, "float": float, "npf": np.float64, "npi": np.int64, "bool": bool}[fl](x)
+        return _numobj(s[1], s[2])
+    if k == "LF":                                   # a list whose elements have a numeric type of their own
+        return [_numobj(x, s[2]) for x in s[1]]
     if k == "L":
         return list(s[1])
     if k == "T":
@@ -95,7 +123,9 @@ def build(s):
 def spec_wire(s):
     k = s[0]
     if k == "N":
-        return "N:" + q(float(s[1]) if s[2] != "bool" else int(bool(s[1])))
+        return "N:" + q(numval(s[1], s[2]))
+    if k == "LF":
+        return "L:" + ql([numval(x, s[2]) for x in s[1]])
     if k in ("L", "T"):
         return "L:" + ql([float(x) for x in s[1]])
     if k == "I":
@@ -107,8 +137,11 @@ def sem(s):
     """the interval a well-formed spec denotes (harness' own reading), else None"""
     k = s[0]
     if k == "N":
-        x = float(s[1])
+        x = float(numval(s[1], s[2]))
         return (x, x)
+    if k == "LF":
+        s = ["L", [numval(x, s[2]) for x in s[1]]]
+        k = "L"
     if k in ("L", "T"):
         xs = [float(x) for x in s[1]]
         if len(xs) == 1:
@@ -136,6 +169,52 @@ def canon(p):
     if not stub:
         mom = [float(p.mean.lo), float(p.mean.hi), float(p.var.lo), float(p.var.hi)]
     return ("ok", L, R, mom, real)
+
+
+LAST_EXC = [None]            # the exception object of the last failing run_impl
+DEFAULT_GRID = (0.001, 0.999, 200)
+
+
+class use_grid:
+    """rebind the public discretisation (Params.steps / p_lboundary / p_hboundary / p_values) and the harness' own
+    copy of it (N, P); everything is put back on exit, also when the body raises"""
+
+    def __init__(self, grid):
+        self.grid = tuple(grid) if grid else None
+
+    def __enter__(self):
+        global N, P
+        if self.grid is None:
+            return self
+        from pyuncertainnumber.pba.params import Params
+        self.saved = (Params.p_values, Params.p_lboundary, Params.p_hboundary, Params.steps, N, P)
+        lo, hi, n = self.grid
+        Params.p_lboundary, Params.p_hboundary, Params.steps = lo, hi, n
+        Params.p_values = np.linspace(lo, hi, n)
+        N, P = n, np.linspace(lo, hi, n)
+        return self
+
+    def __exit__(self, *exc):
+        global N, P
+        if self.grid is not None:
+            from pyuncertainnumber.pba.params import Params
+            Params.p_values, Params.p_lboundary, Params.p_hboundary, Params.steps, N, P = self.saved
+        return False
+
+
+def run_strict(c, mode):
+    """the same call with floating-point errors ('errstate') or warnings ('warnings') configured to raise"""
+    import warnings as _w
+    err0 = np.geterr()
+    try:
+        if mode == "errstate":
+            with np.errstate(all="raise"):
+                return run_impl(c)
+        with _w.catch_warnings():
+            _w.simplefilter("error")
+            return run_impl(c)
+    finally:
+        np.seterr(**err0)
 
 
 LAST_OBJ = [None]            # the real result object of the last successful run_impl (kept alive by run())
@@ -209,6 +288,7 @@ def run_impl(c):
         LAST_OBJ[0] = obj
         return canon(obj)
     except BaseException as e:  # noqa
+        LAST_EXC[0] = e
         return ("err", err_kind(e))
 
 
@@ -315,7 +395,9 @@ def raw_mag(c):
     vals = [1e-300]
     for s in c["pos"]:
         if s[0] == "N":
-            vals.append(abs(float(s[1])))
+            vals.append(abs(float(numval(s[1], s[2]))))
+        elif s[0] == "LF":
+            vals += [abs(float(numval(x, s[2]))) for x in s[1][:2]]
         elif s[0] in ("L", "T"):
             vals += [abs(float(x)) for x in s[1][:2]]
         elif s[0] == "I":
@@ -515,8 +597,8 @@ def oracle(ctx, c, impl, rng, n_rand):
             if mom is not None:
                 if not inside(mom[0], 1 / lam, mom[1]):
                     fails.append(("moments", f"member Exp(rate={lam!r}): mean {1/lam!r} outside [{mom[0]!r}, {mom[1]!r}]"))
-                if not inside(mom[2], 1 / lam ** 2, mom[3]):
-                    fails.append(("moments", f"member Exp(rate={lam!r}): variance {1/lam**2!r} outside [{mom[2]!r}, {mom[3]!r}]"))
+                if not inside(mom[2], (1 / lam) * (1 / lam), mom[3]):
+                    fails.append(("moments", f"member Exp(rate={lam!r}): variance {(1/lam)*(1/lam)!r} outside [{mom[2]!r}, {mom[3]!r}]"))
             if fails:
                 break
     return fails
@@ -753,6 +835,55 @@ def gen_cases(ctx):
             if len(c["pos"]) == len(FAMS[fam]["order"]):
                 c["via"] = {"name": name, "container": "tuple", "entry": "un"}
                 cases.append(c)
+    # ---- round 7 streams -------------------------------------------------------------------------------------
+    num7 = lambda x: ["N", x, "int" if isinstance(x, int) else "float"]
+    # the public discretisation rebound to another grid (same length with other boundaries; other lengths), used, put back;
+    # the cases before and after run on the default grid (the bespoke uniform is left out: its one-step claim is about
+    # the default boundaries and it discretises with its own import-time `steps`)
+    for grid in [(0.02, 0.98, 200), (0.005, 0.995, 200), (0.001, 0.999, 100), (0.001, 0.999, 300), (0.01, 0.99, 40)]:
+        cases.append({"kind": "par", "fam": "normal", "pos": [["L", [0.0, 0.1]], ["L", [1.0, 1.05]]], "kw": [], "stream": "grid-changed"})
+        for fam in fams:
+            order = FAMS[fam]["order"]
+            iv = {"loc": (0.0, 0.1), "mu": (0.0, 0.1), "scale": (1.0, 1.05), "sigma": (0.5, 0.55), "a": (2.0, 2.2)}
+            cases.append({"kind": "par", "fam": fam, "pos": [form(rng, *iv[n]) for n in order], "kw": [], "stream": "grid-changed", "grid": list(grid)})
+            cases.append({"kind": "par", "fam": fam, "pos": [num7(iv[n][0] + 2.0) for n in order], "kw": [], "stream": "grid-changed", "grid": list(grid)})
+        cases.append({"kind": "par", "fam": "exponential", "pos": [], "kw": [["scale", num7(2.0)]], "stream": "grid-changed", "grid": list(grid)})
+        cases.append({"kind": "par", "fam": "normal", "pos": [num7(2.0), num7(3.0)], "kw": [], "stream": "grid-changed", "grid": list(grid),
+                      "via": {"name": "gaussian", "container": "tuple", "entry": "to_pbox"}})
+        cases.append({"kind": "ebl", "pos": [["L", [1, 2]]], "kw": [], "stream": "grid-changed", "grid": list(grid)})
+        c = par_case(rng, rng.choice(fams), "grid-changed")
+        c["grid"] = list(grid)
+        cases.append(c)
+        cases.append({"kind": "par", "fam": "normal", "pos": [["L", [0.0, 0.1]], ["L", [1.0, 1.05]]], "kw": [], "stream": "grid-changed"})
+    # floating-point errors / warnings configured to raise: boxes with a corner whose moments under- or overflow while
+    # its quantiles do not, and ordinary boxes
+    strict = [("normal", [["L", [0, 1]], ["L", [1e-160, 1.0]]], []), ("exponential", [], [["scale", ["I", 1e-170, 2.0]]]),
+              ("lognormal", [["L", [0, 0.5]], ["L", [1.0, 20.0]]], []), ("laplace", [["L", [0, 1]], ["L", [1e-170, 3.0]]], []),
+              ("logistic", [num7(0), ["L", [1e-165, 1.0]]], []), ("gumbel_r", [["L", [0, 1]], ["L", [1e-160, 2.0]]], []),
+              ("rayleigh", [num7(0), ["L", [1e-170, 1.0]]], []), ("gamma", [["L", [1, 2]], num7(0), ["L", [1e-170, 1.0]]], []),
+              ("normal", [["L", [0, 1]], ["L", [1.0, 1e160]]], []), ("normal", [["L", [0, 1]], ["L", [1, 2]]], []),
+              ("gamma", [["L", [2, 3]], num7(0), ["L", [1, 2]]], []), ("gumbel_r", [["L", [0, 1]], ["L", [1, 2]]], [])]
+    for fam, pos, kw in strict:
+        c = {"kind": "par", "fam": fam, "pos": pos, "kw": kw, "stream": "strict-fp"}
+        if any(sp[0] == "L" and max(sp[1]) >= 20 for sp in pos) and fam in ("lognormal", "normal"):
+            c["overflow"] = True      # a corner's variance overflows to inf: outside the wire format (finite rationals); bounds only
+        cases.append(c)
+    cases.append({"kind": "uni", "pos": [["L", [0, 1]], ["L", [2, 3]]], "kw": [], "stream": "strict-fp"})
+    cases.append({"kind": "uni", "pos": [["L", [0, 1e-170]], ["L", [1e-165, 1e-160]]], "kw": [], "stream": "strict-fp"})
+    cases.append({"kind": "ebl", "pos": [["L", [1, 2]]], "kw": [], "stream": "strict-fp"})
+    cases.append({"kind": "ebl", "pos": [["L", [1.0, 1e170]]], "kw": [], "stream": "strict-fp"})
+    # numeric types of the parameters: the result must be the float64 computation of the same values
+    for fl, xs in [("f32", (0.1, 1.5, 2.7)), ("f16", (0.1, 1.5, 2.7)), ("ld", (0.1, 1.5, 2.7)), ("frac", (1 / 3, 4 / 3, 7 / 3)),
+                   ("dec", (0.1, 1.5, 2.7)), ("u8", (3, 5, 7))]:
+        for fam in fams:
+            order = FAMS[fam]["order"]
+            cases.append({"kind": "par", "fam": fam, "pos": [["N", xs[j % 3], fl] if j != 1 else ["LF", [xs[1], xs[2]], fl]
+                                                              for j, n in enumerate(order)], "kw": [], "stream": "numeric-types"})
+        cases.append({"kind": "uni", "pos": [["N", xs[0], fl], ["LF", [xs[1], xs[2]], fl]], "kw": [], "stream": "numeric-types"})
+        cases.append({"kind": "ebl", "pos": [["LF", [xs[1], xs[2]], fl]], "kw": [], "stream": "numeric-types"})
+    for fam in ("normal", "logistic", "laplace", "gumbel_r"):
+        cases.append({"kind": "par", "fam": fam, "pos": [["N", 2 ** 53 + 1, "big"], ["L", [1, 2]]], "kw": [], "stream": "numeric-types"})
+        cases.append({"kind": "par", "fam": fam, "pos": [["LF", [2 ** 60 + 1, 2 ** 60 + 4097], "big"], ["N", 2 ** 55 + 1, "big"]], "kw": [], "stream": "numeric-types"})
     # keyword parameters (exponential, rayleigh): witnesses of KF-C09-kw-drops-positional
     for fam in ("exponential", "rayleigh"):
         cases.append({"kind": "par", "fam": fam, "pos": [["L", [1, 2]]], "kw": [["scale", ["L", [1, 2]]]], "stream": "kw"})
@@ -866,7 +997,7 @@ def _js(t):
 
 
 def case_json(c):
-    return {k: c[k] for k in ("kind", "fam", "pos", "kw", "stream", "via", "nomom", "alias") if k in c}
+    return {k: c[k] for k in ("kind", "fam", "pos", "kw", "stream", "via", "nomom", "alias", "grid", "overflow") if k in c}
 
 
 def run(ctx: core.Check, cases=None):
@@ -878,7 +1009,9 @@ def run(ctx: core.Check, cases=None):
                 "non-degenerate boxes (relative width 1e-9..1e-5, magnitudes 1e-9); extreme constants (1e-20, 2^-60, k_B, 1e18); the "
                 "Distribution(family, tuple|list|scalar).to_pbox()/convert()/+0/-(-d) entry point; the UncertainNumber(essence='pbox') layer; the "
                 "same operand object for every parameter; boxes reaching outside the family's domain at one corner (touching 0 / straddling: "
-                "must raise, a returned value is judged) and just inside it (1e-300, 5e-324: must not raise); sequences binding the same numbers "
+                "must raise, a returned value is judged) and just inside it (1e-300, 5e-324: must not raise); the public grid rebound "
+                "(other boundaries, 40/100/300 steps) and put back; every 6th case and a strict-fp stream re-run under np.errstate(all='raise') / "
+                "warnings.simplefilter('error') (same value or the escalated error); float32/float16/longdouble/Fraction/Decimal/uint8/big-int parameters; sequences binding the same numbers "
                 "positionally and by keyword in consecutive calls; results kept alive and re-read, cases evaluated twice. A case is non-trivial when it is a distinct (constructor, parameter forms, values) "
                 "description; malformed cases count as trivial.")
     ctx.assumptions = ["scipy ppf/stats values at the corners are computed by the harness with its own family table and sent to the model",
@@ -908,6 +1041,7 @@ def run(ctx: core.Check, cases=None):
         ctx.fail({"check": "grid"}, {"p_values": "changed"}, "Params.p_values is no longer linspace(0.001, 0.999, 200)")
     if cases is None:
         cases = gen_cases(ctx)
+    ERR0 = np.geterr()
     n_rand = ctx.scale(10, 40)
     real_budget = [ctx.scale(12, 60)]
     forced_budget = [ctx.scale(25, 100)]
@@ -933,58 +1067,104 @@ def run(ctx: core.Check, cases=None):
             del keep[:-40]
 
     CH = 250
-    done = 0
+    done = [0]
+
+    def process(c, rep):
+        stream = c["stream"]
+        model = parse_model(rep)
+        impl = run_impl(c)
+        obj = LAST_OBJ[0]
+        if impl[0] == "ok" and impl[3] is None and not c.get("nomom") and not c.get("overflow"):
+            # the constructor derived the moments itself: use the library's own moment code (LP, ~1 s) instead of
+            # the stub so that the oracle judges what a user sees.  Always for the fixed witnesses; within a budget for
+            # random cases; and whenever the model says the family's moments should have been handed over.
+            unexpected = model[0] == "ok" and model[3] is not None and forced_budget[0] > 0
+            if c.get("mom") or unexpected or (c["kind"] == "par" and real_budget[0] > 0):
+                if unexpected:
+                    forced_budget[0] -= 1
+                elif not c.get("mom"):
+                    real_budget[0] -= 1
+                impl = run_impl_real_moments(c)
+                obj = LAST_OBJ[0]
+        ctx.count(json.dumps(case_json(c), sort_keys=True, default=str), "malformed" not in stream, stream)
+        ctx.bump("fam:" + c.get("fam", c["kind"]))
+        ctx.bump("impl:" + (impl[1] if impl[0] == "err" else "value"))
+        if impl[0] == "ok":
+            ctx.bump("moments:" + ("recomputed-by-arithmetic(not-compared)" if c.get("nomom") else
+                                   "derived-by-constructor(LP,checked)" if impl[4] else
+                                   "derived-by-constructor(stubbed,unchecked)" if impl[3] is None else "handed-over(checked)"))
+        if c.get("overflow"):
+            ctx.bump("tie-skipped(non-finite family moments)")
+        elif agrees(c, impl, model):
+            ctx.tie_ok()
+        else:
+            ctx.tie_bad(stream, case_json(c), _js(impl), _js(model) if model[0] != "bad" else model)
+        oimpl = impl if not (c.get("nomom") or c.get("overflow")) or impl[0] == "err" else (impl[0], impl[1], impl[2], None, False)
+        for check, what in oracle(ctx, c, oimpl, ctx.rng, n_rand):
+            ctx.fail(features(c, impl, check), dict(case_json(c), impl=_js(impl)), what)
+        if stream in ("random-box", "kw", "uniform-random", "ebl-random", "dist-entry") and len(ctx.samples) < 6 and impl[0] == "ok":
+            ctx.sample({"case": case_json(c), "impl": _js(impl), "model": rep[:160] + " …"})
+        # global floating-point / warning state: the same call under np.errstate(all='raise') and under
+        # warnings.simplefilter('error') gives the same value or raises the escalated error - never another value
+        if "malformed" not in stream and (stream in ("strict-fp", "numeric-types") or done[0] % 6 == 0):
+            for mode in (("errstate", "warnings") if stream == "strict-fp" else (("errstate", "warnings")[(done[0] // 6) % 2],)):
+                st = run_strict(c, mode)
+                ctx.bump("strict:" + mode + ":" + ("raised" if st[0] == "err" else "value"))
+                if st[0] == "err":
+                    e = LAST_EXC[0]
+                    if not (isinstance(e, (FloatingPointError, Warning)) or (impl[0] == "err" and impl[1] == st[1])):
+                        ctx.fail(features(c, st, "strict-fp"), dict(case_json(c), mode=mode, default=_js(impl), strict=_js(st)),
+                                 f"under {mode} the call raises {type(e).__name__} ({str(e)[:80]}) which is not an escalated floating-point error / warning")
+                else:
+                    if impl[0] == "ok" and not same(impl, st):
+                        ctx.fail(features(c, st, "strict-fp"), dict(case_json(c), mode=mode, default=_js(impl), strict=_js(st)),
+                                 f"under {mode} the call returns a different value than under the default floating-point settings "
+                                 f"(moments {st[3]} instead of {impl[3]})")
+                    ost = st if not c.get("nomom") else (st[0], st[1], st[2], None, False)
+                    for check, what in oracle(ctx, c, ost, ctx.rng, 4):
+                        ctx.fail(features(c, st, check), dict(case_json(c), mode=mode, impl=_js(st)), f"[{mode}] " + what)
+        # the result reports the configured grid and does not share memory with it
+        if impl[0] == "ok" and obj is not None:
+            from pyuncertainnumber.pba.params import Params as _P
+            pv = np.asarray(getattr(obj, "p_values", _P.p_values), dtype=float)
+            if len(impl[1]) != N or len(pv) != N or any(float(a) != float(b) for a, b in zip(pv, P)):
+                ctx.fail(features(c, impl, "grid"), dict(case_json(c), impl=_js(impl)),
+                         f"the p-box has {len(impl[1])} steps / reports {len(pv)} levels starting {pv[:2].tolist()} but the configured grid is linspace{c.get('grid') or DEFAULT_GRID}")
+            if np.shares_memory(obj.left, _P.p_values) or np.shares_memory(obj.right, _P.p_values) or np.shares_memory(obj.left, obj.right):
+                ctx.fail(features(c, impl, "aliasing"), dict(case_json(c), impl=_js(impl)), "the bounds share memory with Params.p_values or with each other")
+        # state carried between calls: keep real results alive, re-read them later; evaluate some cases twice
+        if impl[0] == "ok" and obj is not None:
+            keep.append((obj, impl, c))
+        if "malformed" not in stream and (done[0] % 9 == 0 or stream in ("sequence", "kw", "dist-entry")) and len(again) < ctx.scale(150, 600):
+            again.append((c, impl))
+        done[0] += 1
+        if done[0] % 100 == 0:
+            reverify()
+
+    def wire_g(c):
+        with use_grid(c.get("grid")):
+            return wire(c)
+
     for s0 in range(0, len(cases), CH):
         chunk = cases[s0:s0 + CH]
-        replies = core.model_batch("C09", [wire(c) for c in chunk])
+        replies = core.model_batch("C09", [wire_g(c) for c in chunk])
         for c, rep in zip(chunk, replies):
-            stream = c["stream"]
-            model = parse_model(rep)
-            impl = run_impl(c)
-            obj = LAST_OBJ[0]
-            if impl[0] == "ok" and impl[3] is None and not c.get("nomom"):
-                # the constructor derived the moments itself: use the library's own moment code (LP, ~1 s) instead of
-                # the stub so that the oracle judges what a user sees.  Always for the fixed witnesses; within a budget for
-                # random cases; and whenever the model says the family's moments should have been handed over.
-                unexpected = model[0] == "ok" and model[3] is not None and forced_budget[0] > 0
-                if c.get("mom") or unexpected or (c["kind"] == "par" and real_budget[0] > 0):
-                    if unexpected:
-                        forced_budget[0] -= 1
-                    elif not c.get("mom"):
-                        real_budget[0] -= 1
-                    impl = run_impl_real_moments(c)
-                    obj = LAST_OBJ[0]
-            ctx.count(json.dumps(case_json(c), sort_keys=True, default=str), "malformed" not in stream, stream)
-            ctx.bump("fam:" + c.get("fam", c["kind"]))
-            ctx.bump("impl:" + (impl[1] if impl[0] == "err" else "value"))
-            if impl[0] == "ok":
-                ctx.bump("moments:" + ("recomputed-by-arithmetic(not-compared)" if c.get("nomom") else
-                                       "derived-by-constructor(LP,checked)" if impl[4] else
-                                       "derived-by-constructor(stubbed,unchecked)" if impl[3] is None else "handed-over(checked)"))
-            if agrees(c, impl, model):
-                ctx.tie_ok()
-            else:
-                ctx.tie_bad(stream, case_json(c), _js(impl), _js(model) if model[0] != "bad" else model)
-            oimpl = impl if not c.get("nomom") or impl[0] == "err" else (impl[0], impl[1], impl[2], None, False)
-            for check, what in oracle(ctx, c, oimpl, ctx.rng, n_rand):
-                ctx.fail(features(c, impl, check), dict(case_json(c), impl=_js(impl)), what)
-            if stream in ("random-box", "kw", "uniform-random", "ebl-random", "dist-entry") and len(ctx.samples) < 6 and impl[0] == "ok":
-                ctx.sample({"case": case_json(c), "impl": _js(impl), "model": rep[:160] + " …"})
-            # state carried between calls: keep real results alive, re-read them later; evaluate some cases twice
-            if impl[0] == "ok" and obj is not None:
-                keep.append((obj, impl, c))
-            if "malformed" not in stream and (done % 9 == 0 or stream in ("sequence", "kw", "dist-entry")) and len(again) < ctx.scale(150, 600):
-                again.append((c, impl))
-            done += 1
-            if done % 100 == 0:
-                reverify()
+            with use_grid(c.get("grid")):
+                process(c, rep)
     reverify(final=True)
     for c, first in again:
-        second = run_impl(c)
+        with use_grid(c.get("grid")):
+            second = run_impl(c)
         ctx.bump("evaluated-twice")
         if not same(first, second):
             ctx.fail(features(c, second, "repeat"), dict(case_json(c), first=_js(first), second=_js(second)),
                      "the same call gives a different result when made again after unrelated calls")
+    from pyuncertainnumber.pba.params import Params as _P
+    if (len(_P.p_values) != DEFAULT_GRID[2] or _P.steps != DEFAULT_GRID[2] or (_P.p_lboundary, _P.p_hboundary) != DEFAULT_GRID[:2]
+            or any(float(a) != float(b) for a, b in zip(_P.p_values, np.linspace(*DEFAULT_GRID)))):
+        ctx.fail({"check": "global-state"}, {"Params": "changed"}, "Params (steps / boundaries / p_values) differ from the defaults after the run")
+    if np.geterr() != ERR0:
+        ctx.fail({"check": "global-state"}, {"np.geterr": str(np.geterr())}, "numpy's floating-point error state was changed by a call")
     for cj, what in OPERAND_CHANGES:
         ctx.fail({"kind": cj["kind"], "fam": cj.get("fam", cj["kind"]), "check": "operand-modified"}, cj, f"the call modified its {what}")
     del OPERAND_CHANGES[:]
